@@ -611,7 +611,10 @@ pub fn exec(toks: &[&str]) -> Vec<String> {
                 Err(msg) => {
                     let mut res = vec!["import-error".to_string()];
                     if input.is_object() {
-                        res.push(format!("! C33 import rejected a JSON object (empty_key={}): {}", has_empty_key(&input), msg));
+                        // serde_json without `float_roundtrip` overflows on literals just above f64::MAX
+                        // that correctly round to f64::MAX (e.g. 1.7976931348623158e308)
+                        let class = if msg.contains("number out of range") { "[float-text-parse] " } else { "" };
+                        res.push(format!("! C33 {}import rejected a JSON object (empty_key={}): {}", class, has_empty_key(&input), msg));
                     }
                     return res;
                 }
@@ -765,8 +768,23 @@ fn gen_reg(r: &mut Rng, depth: u32, out: &mut Out) -> R {
 #[derive(Clone, Debug)]
 enum JT { Lit(String), Str(String), Arr(Vec<JT>), Obj(Vec<(String, JT)>) }
 
-fn gen_number_literal(r: &mut Rng, out: &mut Out) -> String {
-    let k = r.below(14);
+/// `safe`: only float literals every decimal → f64 algorithm converts exactly the same way
+/// (≤ 15 significant digits, |effective exponent| ≤ 22: one exactly-rounded multiplication or division)
+fn gen_number_literal(r: &mut Rng, out: &mut Out, safe: bool) -> String {
+    let mut k = r.below(14);
+    if safe && matches!(k, 5..=10 | 13) {
+        out.count("num_float_safe");
+        let m = match r.below(3) { 0 => r.below(1000), 1 => r.below(1_000_000_000), _ => r.below(100_000_000_000_000) };
+        let e = r.below(41) as i64 - 20;   // `.0` below costs one more digit and one more power of ten
+        let sign = if r.chance(1, 3) { "-" } else { "" };
+        return match r.below(4) {
+            0 => format!("{}{}e{}", sign, m, e),
+            1 => format!("{}{}.0E{}", sign, m, e),
+            2 => format!("{}{}.{:03}", sign, m % 1_000_000_000_000, r.below(1000)),
+            _ => format!("{}{}e+{}", sign, m, e.abs()),
+        };
+    }
+    if safe && k == 12 { k = 11; }
     out.count(match k { 0..=2 => "num_i64", 3 | 4 => "num_u64", 5 => "num_bigint", 6..=9 => "num_float_shortest", 10 => "num_float_notation", 11 => "num_negzero", 12 => "num_int_as_float", _ => "num_long_decimal" });
     match k {
         0..=2 => edgy_i64(r).to_string(),
@@ -794,26 +812,26 @@ fn gen_number_literal(r: &mut Rng, out: &mut Out) -> String {
     }
 }
 
-fn gen_jt(r: &mut Rng, depth: u32, out: &mut Out) -> JT {
+fn gen_jt(r: &mut Rng, depth: u32, out: &mut Out, safe: bool) -> JT {
     let container = depth < 4 && r.chance(if depth == 0 { 1 } else { 3 }, if depth == 0 { 1 } else { 8 });
     if !container {
         return match r.below(10) {
             0 => { out.count("json_null"); JT::Lit("null".into()) }
             1 => { out.count("json_bool"); JT::Lit(if r.chance(1, 2) { "true".into() } else { "false".into() }) }
             2..=4 => { out.count("json_string"); JT::Str(gen_string(r)) }
-            _ => JT::Lit(gen_number_literal(r, out)),
+            _ => JT::Lit(gen_number_literal(r, out, safe)),
         };
     }
     let n = match r.below(6) { 0 => 0, 1 => 1, _ => r.range(2, 5) } as usize;
     if n == 0 { out.count("json_empty_container"); }
     if depth == 0 || r.chance(1, 2) {
         out.count("json_object");
-        let mut kvs: Vec<(String, JT)> = (0..n).map(|_| { let k = gen_key(r, true); if k.is_empty() { out.count("json_empty_key"); } (k, gen_jt(r, depth + 1, out)) }).collect();
-        if n > 0 && r.chance(1, 12) { out.count("json_duplicate_key"); let k = kvs[0].0.clone(); kvs.push((k, gen_jt(r, depth + 1, out))); }
+        let mut kvs: Vec<(String, JT)> = (0..n).map(|_| { let k = gen_key(r, true); if k.is_empty() { out.count("json_empty_key"); } (k, gen_jt(r, depth + 1, out, safe)) }).collect();
+        if n > 0 && r.chance(1, 12) { out.count("json_duplicate_key"); let k = kvs[0].0.clone(); kvs.push((k, gen_jt(r, depth + 1, out, safe))); }
         JT::Obj(kvs)
     } else {
         out.count("json_array");
-        JT::Arr((0..n).map(|_| gen_jt(r, depth + 1, out)).collect())
+        JT::Arr((0..n).map(|_| gen_jt(r, depth + 1, out, safe)).collect())
     }
 }
 
@@ -869,7 +887,10 @@ fn render_jt(r: &mut Rng, j: &JT, o: &mut String) {
     }
 }
 
-pub fn generate(r: &mut Rng, _opts: &BTreeMap<String, String>, sess: &mut Session, out: &mut Out) {
+/// options: `--floats safe` restricts float literals of the CLI stream to the class that does not
+/// depend on serde_json's `float_roundtrip` feature (see the `[float-text-parse]` finding)
+pub fn generate(r: &mut Rng, opts: &BTreeMap<String, String>, sess: &mut Session, out: &mut Out) {
+    let safe = opts.get("floats").map(|s| s == "safe").unwrap_or(false);
     // 1. two documents: current state with conflicts, deleted registers, every scalar kind
     for _ in 0..2 {
         let spec = gen_val(r, 0, out);
@@ -885,13 +906,13 @@ pub fn generate(r: &mut Rng, _opts: &BTreeMap<String, String>, sess: &mut Sessio
             // invalid stream: the top level is not an object
             out.count("cli_top_level_not_object");
             match r.below(4) {
-                0 => JT::Arr(vec![gen_jt(r, 3, out)]),
-                1 => JT::Lit(gen_number_literal(r, out)),
+                0 => JT::Arr(vec![gen_jt(r, 3, out, safe)]),
+                1 => JT::Lit(gen_number_literal(r, out, safe)),
                 2 => JT::Str(gen_string(r)),
                 _ => JT::Lit("null".into()),
             }
         } else {
-            gen_jt(r, 0, out)
+            gen_jt(r, 0, out, safe)
         };
         let mut text = String::new();
         ws(r, &mut text);
